@@ -9,7 +9,8 @@ use crate::real::*;
 
 pub struct C09;
 
-pub const VOCAB: [&str; 95] = [
+pub const VOCAB: [&str; 101] = [
+    "0x_", "0b__", "0x_1", "0b1_0", "1_000", "0_7",
     "0xFFFFFFFFFFFFFFFF", "0x8000000000000000", "0x10000000000000000", "01000000000000000000000",
     "0b1000000000000000000000000000000000000000000000000000000000000000", "0x7FFFFFFFFFFFFFFF", "\u{feff}",
     "end", "loop", "repeat", "bits", "let", "resetRandom", "while", "declare", "program", "init",
@@ -194,7 +195,17 @@ fn mutate(ch: &mut Ch, text: &str) -> String {
             break;
         }
         let i = ch.upto(pieces.len());
-        match ch.upto(7) {
+        match ch.upto(8) {
+            7 => {
+                // the block keyword behind an `end` swapped for the other one
+                let ends: Vec<usize> = (0..pieces.len()).filter(|j| pieces[*j] == "end").collect();
+                if !ends.is_empty() {
+                    let e = ends[ch.upto(ends.len())];
+                    if let Some(j) = (e + 1..pieces.len()).find(|j| pieces[*j] == "loop" || pieces[*j] == "while") {
+                        pieces[j] = if pieces[j] == "loop" { "while".to_string() } else { "loop".to_string() };
+                    }
+                }
+            }
             6 => {
                 // the width of a bits entry replaced by a vocabulary item
                 if let Some(j) = (0..pieces.len()).map(|d| (i + d) % pieces.len()).find(|j| pieces[*j].contains("bits(")) {
@@ -244,7 +255,7 @@ impl Property for C09 {
         "C09"
     }
     fn rule(&self) -> &'static str {
-        "three generators: (a) token soup over the full vocabulary (every keyword incl. program/memory/init/def/call, every operator, identifiers, four integer kinds incl. malformed and overflowing ones and hex / octal / binary literals with bit 63 set (also as the width of a bits entry), X Z C, punctuation, newline, comments, junk: $ @ e-acute crab U+0085 U+2028 NUL CR TAB FF) behind a plausible header, mixed with statement-shaped fragments, or (1 in 16) a header of 63-130 columns with rows of 0 / 1 / C / X / Z entries that fill it; (b) valid generated programs with 1-4 token deletions / duplications / swaps / replacements / insertions / gluings and truncation at any character boundary; (c, thorough) libFuzzer target parse_bytes on raw bytes seeded with the repository's test sources and a token dictionary. One text in twelve starts with a byte order mark. Oracle: from_str returns; no panic; for Err(e) every span in e.at has start <= end <= len on char boundaries; the error renders with miette's graphical handler. Non-trivial: the text has a header line and at least one further token; distinct by text."
+        "three generators: (a) token soup over the full vocabulary (every keyword incl. program/memory/init/def/call, every operator, identifiers, four integer kinds incl. malformed and overflowing ones and hex / octal / binary literals with bit 63 set (also as the width of a bits entry), X Z C, punctuation, newline, comments, junk: $ @ e-acute crab U+0085 U+2028 NUL CR TAB FF) behind a plausible header, mixed with statement-shaped fragments, or (1 in 16) a header of 63-130 columns with rows of 0 / 1 / C / X / Z entries that fill it; (b) valid generated programs with 1-4 token deletions / duplications / swaps / replacements / insertions / gluings / swapped block keywords behind `end` and truncation at any character boundary; (c, thorough) libFuzzer target parse_bytes on raw bytes seeded with the repository's test sources and a token dictionary. One text in twelve starts with a byte order mark. Oracle: from_str returns; no panic; for Err(e) every span in e.at has start <= end <= len on char boundaries; the error renders with miette's graphical handler. Non-trivial: the text has a header line and at least one further token; distinct by text."
     }
     fn cases(&self, tier: Tier) -> u64 {
         match tier {
